@@ -57,6 +57,8 @@ type g7Conn struct {
 	handlers map[*state.Registry]netmc.SessionHandler
 	writer   netmc.Writer
 	onWrite  func(c *g7Conn, w g7Write) // observation hook (global order across connections)
+	// onClosedWrite observes a write attempted after the connection was closed (it fails with ErrClosedConn)
+	onClosedWrite func(c *g7Conn, w g7Write)
 }
 
 var errG7Write = errors.New("g7: injected write error")
@@ -123,6 +125,9 @@ func (c *g7Conn) EnableEncryption([]byte) error                               { 
 
 func (c *g7Conn) record(w g7Write) error {
 	if c.ctx.Err() != nil {
+		if c.onClosedWrite != nil {
+			c.onClosedWrite(c, w)
+		}
 		return netmc.ErrClosedConn
 	}
 	if c.writeErr != nil {
